@@ -104,6 +104,15 @@ impl<W: 'static, R: 'static, T: 'static> XNativeValue for XGenerator<W, R, T> {
     }
 }
 
+/// one unit of a search budget; a budget that already reported its violation keeps reporting it
+fn search_tick(
+    search: &mut impl Iterator<Item = crate::root_runtime_scope::RuntimeResult<()>>,
+) -> crate::root_runtime_scope::RuntimeResult<()> {
+    search
+        .next()
+        .unwrap_or(Err(crate::runtime_violation::RuntimeViolation::MaximumSearch))
+}
+
 impl<W: 'static, R: 'static, T: 'static> XGenerator<W, R, T> {
     fn _iter<'a>(
         &'a self,
@@ -199,19 +208,41 @@ impl<W: 'static, R: 'static, T: 'static> XGenerator<W, R, T> {
                 })
             }),
             Self::Slice(gen, start, end) => either_g({
-                let inner: BIter<_, _, _> = Box::new(to_native!(gen, Self)._iter(ns, rt));
+                let inner: BIter<_, _, _> = Box::new(to_native!(gen, Self)._iter(ns, rt.clone()));
+                // a skipped element is examined and dropped without being handed to any consumer:
+                // it takes from the search budget here
+                let mut search = rt.limits.search_iter();
+                let mut to_skip = *start;
+                let inner = inner.filter_map(move |i| {
+                    if to_skip == 0 {
+                        return Some(i);
+                    }
+                    if let Err(violation) = search_tick(&mut search) {
+                        return Some(Err(violation));
+                    }
+                    if i.is_err() {
+                        return Some(i);
+                    }
+                    to_skip -= 1;
+                    None
+                });
                 if let Some(end) = end {
                     // `end` is an absolute position in the inner stream, not a length
-                    Either::Left(inner.skip(*start).take(end.saturating_sub(*start)))
+                    Either::Left(inner.take(end.saturating_sub(*start)))
                 } else {
-                    Either::Right(inner.skip(*start))
+                    Either::Right(inner)
                 }
             }),
             Self::Filter(gen, func) => either_h({
                 let inner: BIter<_, _, _> = Box::new(to_native!(gen, Self)._iter(ns, rt.clone()));
                 let f = to_primitive!(func, Function);
+                // rejected elements reach no consumer: every examined element takes from the search budget here
+                let mut search = rt.limits.search_iter();
                 inner.filter_map(move |i| {
                     let Ok(value) = i else { return Some(i); };
+                    if let Err(violation) = search_tick(&mut search) {
+                        return Some(Err(violation));
+                    }
                     let guard =
                         match ns.eval_func_with_values(f, vec![value.clone()], rt.clone(), false) {
                             Ok(g) => g.unwrap_value(),
@@ -261,11 +292,15 @@ impl<W: 'static, R: 'static, T: 'static> XGenerator<W, R, T> {
                 let inner: BIter<_, _, _> = Box::new(to_native!(gen, Self)._iter(ns, rt.clone()));
                 let f = to_primitive!(func, Function);
                 let mut found_first = false;
+                let mut search = rt.limits.search_iter();
                 inner.filter_map(move |i| {
                     if found_first {
                         return Some(i);
                     }
                     let Ok(value) = i else { return Some(i); };
+                    if let Err(violation) = search_tick(&mut search) {
+                        return Some(Err(violation));
+                    }
                     let guard =
                         match ns.eval_func_with_values(f, vec![value.clone()], rt.clone(), false) {
                             Ok(g) => g.unwrap_value(),
